@@ -358,7 +358,7 @@ func decide(c *core.Ctx, pool *gjs.Pool, p *Params) {
 	c.Set("rule", "TLC enumerates families (named struct types x declared methods/receivers x embedding edges x scopes) of the spaces in c09_params.json; a case = one family with its full tables (assert x2 forms, two type switches, dispatch probes in 9 call forms, == on 5 values per type); distinct = distinct families; non-trivial = every family (each has at least one method or embedding edge probed); evaluations = compared table cells")
 
 	// ---- batches of families
-	per := 64
+	per := 32
 	var batches [][]*Table
 	for i := 0; i < len(tables); i += per {
 		j := i + per
@@ -371,7 +371,28 @@ func decide(c *core.Ctx, pool *gjs.Pool, p *Params) {
 	var mu sync.Mutex
 	discards, validated := 0, 0
 	var mism []mismatch
-	c.ParMap(len(batches), func(bi int) {
+	// the identity program (one large program) is built and run next to the batches
+	icells, idisc := 0, 0
+	if len(rows) > 0 {
+		sort.Slice(rows, func(i, j int) bool { return rows[i].N < rows[j].N })
+	}
+	c.ParMap(len(batches)+1, func(bi int) {
+		if bi == 0 {
+			if len(rows) == 0 {
+				return
+			}
+			ms, n, d, err := decideIdent(c, pool, &p.Ident, rows)
+			if err != nil {
+				c.Infra(err)
+				return
+			}
+			mu.Lock()
+			icells, idisc = n, d
+			mism = append(mism, ms...)
+			mu.Unlock()
+			return
+		}
+		bi--
 		b := newBatch()
 		var fams []*famProg
 		for k, t := range batches[bi] {
@@ -449,24 +470,13 @@ func decide(c *core.Ctx, pool *gjs.Pool, p *Params) {
 			}
 		}
 	})
-	c.Phase("families")
-	// ---- identity scenario
-	icells, idisc := 0, 0
+	c.Phase("programs")
 	if len(rows) > 0 {
-		sort.Slice(rows, func(i, j int) bool { return rows[i].N < rows[j].N })
-		ms, n, d, err := decideIdent(c, pool, &p.Ident, rows)
-		if err != nil {
-			c.Infra(err)
-			return
-		}
-		icells, idisc = n, d
-		mism = append(mism, ms...)
 		for _, r := range rows {
 			c.Distinct(fmt.Sprintf("ident|%d|%s", r.Site, js(r.Expr)))
 		}
 		c.Set("ident_sited_expressions", len(rows))
 	}
-	c.Phase("ident")
 	c.Set("evaluations", cells+icells)
 	c.Set("spec_guard_discards", discards+idisc)
 	c.Set("traces_validated_against_impl", validated)
